@@ -138,7 +138,7 @@ def check_helper(ctx, rep, helper, lockfield):
             saw_yield = saw_yield or bool(ys)
             ok = len(ys) == 1 and br and br[0].d[1] is False and any(l[1] == ("attr", ("param", "self"), lockfield) for l in ys[0].locks) and any(l[1] == ("attr", ("param", "self"), lockfield) for l in br[0].locks)
             rep.ob("R-HELPER", key, ok, "ensure_alive must test the flag and yield exactly once, both under self.%s" % lockfield, where_of(alive_fi), trace_of(p))
-    rep.require(saw_raise and saw_yield, "ShutdownHelper.ensure_alive: expected a raising and a yielding path")
+    rep.ob("R-HELPER", "ShutdownHelper.ensure_alive refuses after shutdown and admits before", saw_raise and saw_yield, "ensure_alive has %s: after shutdown() a submit must be refused with the documented RuntimeError, before it the body must run" % ("no raising path" if not saw_raise else "no yielding path"), where_of(alive_fi))
 
     return flag
 
